@@ -131,6 +131,15 @@ func alterWare(c *Ctx, stored []byte, mut string, other []byte) []byte {
 		}
 		tw.Close()
 		return append(gz(body), gz(m2.Bytes())...)
+	case "addrootfile": // an extra entry for the root itself: a regular file (or symlink) named "." ahead of the real root directory
+		return gz(retar(raw, func(hs []*tar.Header, bs [][]byte) ([]*tar.Header, [][]byte) {
+			h := &tar.Header{Name: ".", Typeflag: tar.TypeReg, Mode: 0644, ModTime: hs[0].ModTime}
+			if arg(1)%2 == 1 {
+				h = &tar.Header{Name: ".", Typeflag: tar.TypeSymlink, Linkname: "/etc", Mode: 0777, ModTime: hs[0].ModTime}
+				return append([]*tar.Header{h}, hs...), append([][]byte{nil}, bs...)
+			}
+			return append([]*tar.Header{h}, hs...), append([][]byte{[]byte("bogus")}, bs...)
+		}))
 	case "addlink": // a link name written into the header of a regular file (or directory) entry: same length, still parses
 		return gz(retar(raw, func(hs []*tar.Header, bs [][]byte) ([]*tar.Header, [][]byte) {
 			for i := range hs {
